@@ -48,6 +48,24 @@ def gen_case(rng):
     scn = P.gen_scenario(rng, nrepos=1)
     if rng.random() < 0.25:
         add_twin(rng, scn)
+    twin_appears = rng.random() < 0.15
+    if twin_appears:
+        # a by-hash repository whose per-architecture Contents files differ at first; in the last upstream version one of
+        # them becomes byte-identical to its sibling, which did not change and is already mirrored
+        for r in scn.repos:
+            r["config"]["byhash"] = "force"
+            for cn, c in r["version"]["codenames"].items():
+                c["byhash"] = True
+                for comp, cc in c["components"].items():
+                    cc["contents"] = True
+                    cc["contents_identical"] = False
+                    cc.pop("contents_arches", None)
+                    cc["arches"].setdefault("amd64", [])
+                    cc["arches"].setdefault("i386", [])
+                if cn in r["config"]["codenames"]:
+                    for comp in r["config"]["codenames"][cn]:
+                        r["config"]["codenames"][cn][comp]["arches"] = ["amd64", "i386"]
+        return scn, {"seed": rng.getrandbits(32), "steps": rng.randint(1, 3), "twin_appears": True}
     return scn, {"seed": rng.getrandbits(32), "steps": rng.randint(1, 3)}
 
 
@@ -146,6 +164,18 @@ def run_case(rep, scn, case, sb, tag, rows=None, mrows=None):
             continue
         cur = P.Scenario([dict(r, version=P.gen_version(rng, serial=cur.repos[0]["version"]["serial"] + 1,
                                                         prev=r["version"])) for r in cur.repos], nthreads=cur.nthreads)
+    if case.get("twin_appears"):
+        import json as _json
+        v = _json.loads(_json.dumps(cur.repos[0]["version"]))
+        v["serial"] += 1
+        for c in v["codenames"].values():
+            c["byhash"] = True
+            for cc in c["components"].values():
+                cc["contents"] = True
+                cc["contents_identical"] = True
+                cc.pop("contents_arches", None)
+        cur = P.Scenario([dict(cur.repos[0], version=v)], nthreads=cur.nthreads)
+        history.append(("twin-appears", 0))
     files = R.files_of(cur)
     final = R.run_observed(cur, base, files_by_url=files)
     jc = {"scenario": {"repos": scn.repos, "nthreads": scn.nthreads}, "case": case, "history": history}
